@@ -176,20 +176,35 @@ class Binary:
         self.workdir = workdir
 
     def run(self, ops, timeout=20):
-        """ops: list of command strings.  Returns (lines, status) with status in ok|timeout|crash:<rc>|sanitizer."""
+        """ops: list of command strings.  Returns (lines, status) with status in ok|timeout|crash:<rc>|sanitizer.
+        A wall-clock timeout is confirmed by CPU time before it is believed: on a loaded machine a parser that is
+        merely not scheduled must not look like one that does not return."""
+        r = self._run(ops, timeout, None)
+        if r[1] == "timeout":
+            return self._run(ops, timeout * 15 + 30, max(2, int(timeout)))
+        return r
+
+    def _run(self, ops, timeout, cpu):
         inp = "\n".join(ops) + "\n"
         env = dict(os.environ)
         env["ASAN_OPTIONS"] = "detect_leaks=1:abort_on_error=0:exitcode=97"
         env["UBSAN_OPTIONS"] = "halt_on_error=1:exitcode=98:print_stacktrace=0"
+        pre = None
+        if cpu is not None:
+            env["DRV_ALARM"] = str(int(timeout) + 60)       # only the CPU limit decides in the confirmation run
+
+            def pre():
+                import resource
+                resource.setrlimit(resource.RLIMIT_CPU, (cpu, cpu + 1))
         try:
-            p = subprocess.run([self.path], input=inp, capture_output=True, text=True, timeout=timeout, env=env)
+            p = subprocess.run([self.path], input=inp, capture_output=True, text=True, timeout=timeout, env=env, preexec_fn=pre)
         except subprocess.TimeoutExpired as e:
             out = e.stdout.decode() if isinstance(e.stdout, bytes) else (e.stdout or "")
             return out.splitlines(), "timeout", ""
         lines = p.stdout.splitlines()
         if p.returncode == 0:
             return lines, "ok", p.stderr
-        if p.returncode == -14:
+        if p.returncode in (-14, -24, -9) and (cpu is not None or p.returncode == -14):
             return lines, "timeout", p.stderr
         if p.returncode in (97, 98) or "Sanitizer" in p.stderr or "runtime error" in p.stderr:
             return lines, "sanitizer", p.stderr[-3000:]
